@@ -1164,3 +1164,750 @@ func ruleR57(c *Ctx) {
 func blockAlwaysLeaves(b *ast.BlockStmt) bool {
 	return leavesBlock(b)
 }
+
+// ---- R58: lock pairing ----
+
+func init() {
+	register(&Rule{ID: "R58", Title: "lock pairing: every Lock/RLock in the engine is released on every path to the exit of the function that took it, or handed to a goroutine launched by that function which releases it", Min: 30, Run: ruleR58})
+	register(&Rule{ID: "R59", Title: "fresh cohort before the decision: whenever the inclusive join refreshes the set of awaited tokens, the decision to synchronise is re-evaluated afterwards on every path", Min: 2, Run: ruleR59})
+}
+
+func mutexCall(in *types.Info, call *ast.CallExpr) (x ast.Expr, kind string) {
+	s, ok := unparen(call.Fun).(*ast.SelectorExpr)
+	if !ok {
+		return nil, ""
+	}
+	fn := callee(in, call)
+	if fn == nil || fn.Pkg() == nil || fn.Pkg().Path() != "sync" {
+		return nil, ""
+	}
+	if rn := recvNamed(fn); rn == nil || (rn.Obj().Name() != "Mutex" && rn.Obj().Name() != "RWMutex") {
+		return nil, ""
+	}
+	switch fn.Name() {
+	case "Lock", "RLock", "Unlock", "RUnlock":
+		return s.X, fn.Name()
+	}
+	return nil, ""
+}
+
+func ruleR58(c *Ctx) {
+	p := c.P
+	what := "a mutex taken by a function is released on every path to that function's exit (defer or explicit), or is deliberately handed to a goroutine the function starts and that goroutine releases it; a path that returns with the mutex held blocks every later user of it forever"
+	for _, f := range p.Funcs {
+		if !isTargetPkg(p, f.Pkg.PkgPath) || f.Body == nil {
+			continue
+		}
+		in := info(f)
+		var locks []*ast.CallExpr
+		inspectNoLit(f.Body, func(n ast.Node) bool {
+			if call, ok := n.(*ast.CallExpr); ok {
+				if _, k := mutexCall(in, call); k == "Lock" || k == "RLock" {
+					if _, isDefer := p.Parent(call).(*ast.DeferStmt); !isDefer {
+						locks = append(locks, call)
+					}
+				}
+			}
+			return true
+		})
+		if len(locks) == 0 {
+			continue
+		}
+		g := p.Graph(f)
+		for _, lk := range locks {
+			lx, kind := mutexCall(in, lk)
+			want := "Unlock"
+			if kind == "RLock" {
+				want = "RUnlock"
+			}
+			// the CFG node holding the call
+			var node ast.Node = lk
+			for {
+				if _, ok := g.PointOf(node); ok {
+					break
+				}
+				node = p.Parent(node)
+				if node == nil {
+					break
+				}
+			}
+			if node == nil {
+				c.Bad(f, lk, kind+" of "+exprString(lx), what, "the call is not a node of the control-flow graph (undecided)")
+				continue
+			}
+			pt, _ := g.PointOf(node)
+			isRelease := func(n ast.Node) bool {
+				return nodeHasCall(p, n, func(call *ast.CallExpr) bool {
+					ux, k := mutexCall(info(f), call)
+					return k == want && sameRef(in, ux, lx)
+				}) || releasedByCallee(p, f, n, lx, want, 0)
+			}
+			// flag-coupled: `if locked { mu.Lock() }` ... `if locked { mu.Unlock() }` is accepted when a
+			// release exists under the same flag
+			flagCoupled := false
+			if ifs, ok := p.Parent(p.Parent(p.Parent(lk))).(*ast.IfStmt); ok {
+				if id, ok := unparen(ifs.Cond).(*ast.Ident); ok {
+					inspectNoLit(f.Body, func(n ast.Node) bool {
+						if i2, ok := n.(*ast.IfStmt); ok && i2 != ifs {
+							if id2, ok := unparen(i2.Cond).(*ast.Ident); ok && objOf(in, id2) == objOf(in, id) {
+								if exprMentions(i2.Body, func(z ast.Node) bool { return isRelease(z) && z != ast.Node(i2.Body) }) {
+									flagCoupled = true
+								}
+							}
+						}
+						return true
+					})
+				}
+			}
+			bad := g.MustPassBeforeExit(pt, false, isRelease)
+			if len(bad) == 0 {
+				c.Ok(f, lk, kind+" of "+exprString(lx), what, "every path from the "+kind+" to an exit passes "+want+" (defer or explicit)", true)
+				continue
+			}
+			// hand-off: on every unreleased path a goroutine is started (or the function is itself the
+			// constructor that starts it) whose call tree releases the same field
+			handed := ""
+			fld := fieldOf(in, lx)
+			if fld != nil {
+				inspectNoLit(f.Body, func(n ast.Node) bool {
+					gs, ok := n.(*ast.GoStmt)
+					if !ok || gs.Pos() < lk.Pos() {
+						return true
+					}
+					var root *FuncInfo
+					if lit, ok := gs.Call.Fun.(*ast.FuncLit); ok {
+						root = p.byLit[lit]
+					} else {
+						root = p.byObj[callee(in, gs.Call)]
+					}
+					if root == nil {
+						return true
+					}
+					for tf := range goroutineTree(p, root) {
+						tin := info(tf)
+						inspectNoLit(tf.Body, func(z ast.Node) bool {
+							if call, ok := z.(*ast.CallExpr); ok {
+								if ux, k := mutexCall(tin, call); k == want && fieldOf(tin, ux) == fld {
+									handed = root.QName()
+								}
+							}
+							return true
+						})
+					}
+					return true
+				})
+			}
+			if handed != "" {
+				// every unreleased path must pass the go statement
+				bad2 := g.MustPassBeforeExit(pt, false, func(n ast.Node) bool {
+					if isRelease(n) {
+						return true
+					}
+					_, isGo := n.(*ast.GoStmt)
+					return isGo
+				})
+				// error returns between the lock and the go statement keep the lock: not accepted
+				if len(bad2) == 0 {
+					c.Ok(f, lk, kind+" of "+exprString(lx), what, "handed to goroutine "+handed+", which releases "+fld.Name(), true)
+					continue
+				}
+				bad = bad2
+			}
+			if flagCoupled {
+				c.Ok(f, lk, kind+" of "+exprString(lx), what, "taken and released under the same flag parameter", true)
+				continue
+			}
+			// (1) returned held: the mutex belongs to an object this function creates and returns; a method of
+			// the type releases it
+			if r := rootIdent(lx); r != nil && fld != nil {
+				if lv, ok := objOf(in, r).(*types.Var); ok && !isParam(f, lv) && lv.Pos() > f.Body.Pos() && lv.Pos() < f.Body.End() {
+					returned := false
+					inspectNoLit(f.Body, func(n ast.Node) bool {
+						if rs, ok := n.(*ast.ReturnStmt); ok {
+							for _, e := range rs.Results {
+								if id := rootIdent(e); id != nil && objOf(in, id) == types.Object(lv) {
+									returned = true
+								}
+							}
+						}
+						return true
+					})
+					releaser := ""
+					for _, h := range p.Funcs {
+						if h.Obj == nil || h.Body == nil || h == f {
+							continue
+						}
+						hin := info(h)
+						hg := p.Graph(h)
+						if len(hg.MustPassBeforeExit(hg.Entry(), true, func(m ast.Node) bool {
+							return nodeHasCall(p, m, func(c2 *ast.CallExpr) bool {
+								ux, k := mutexCall(hin, c2)
+								return k == want && fieldOf(hin, ux) == fld
+							})
+						})) == 0 {
+							takes := false
+							inspectNoLit(h.Body, func(z ast.Node) bool {
+								if c2, ok := z.(*ast.CallExpr); ok {
+									if ux, k := mutexCall(hin, c2); (k == "Lock" || k == "RLock") && fieldOf(hin, ux) == fld {
+										takes = true
+									}
+								}
+								return true
+							})
+							if !takes {
+								releaser = h.QName()
+							}
+						}
+					}
+					if returned && releaser != "" {
+						c.Ok(f, lk, kind+" of "+exprString(lx), what, "the object is created here and returned with the mutex held; "+releaser+" releases it", true)
+						continue
+					}
+				}
+			}
+			// (2) the held state is returned to the caller as a flag: `mu.Lock(); held = true ... return held`
+			if blk, ok := p.Parent(p.Parent(lk)).(*ast.BlockStmt); ok {
+				flagged := false
+				for i, st := range blk.List {
+					if es, ok := st.(*ast.ExprStmt); ok && es.X == ast.Expr(lk) && i+1 < len(blk.List) {
+						if as, ok := blk.List[i+1].(*ast.AssignStmt); ok && len(as.Lhs) == 1 && len(as.Rhs) == 1 {
+							if id, ok := unparen(as.Rhs[0]).(*ast.Ident); ok && id.Name == "true" {
+								if fv, ok := objOf(in, as.Lhs[0]).(*types.Var); ok {
+									allRet := true
+									inspectNoLit(f.Body, func(n ast.Node) bool {
+										if rs, ok := n.(*ast.ReturnStmt); ok && rs.Pos() > lk.Pos() {
+											has := false
+											for _, e := range rs.Results {
+												if rid, ok := unparen(e).(*ast.Ident); ok && objOf(in, rid) == types.Object(fv) {
+													has = true
+												}
+											}
+											if !has {
+												allRet = false
+											}
+										}
+										return true
+									})
+									flagged = allRet
+								}
+							}
+						}
+					}
+				}
+				if flagged {
+					c.Ok(f, lk, kind+" of "+exprString(lx), what, "the held state is returned to the caller as a flag set right after the "+kind+" (the caller's protocol is rule R22)", true)
+					continue
+				}
+			}
+			// (3) handed to the closure this function returns, which releases it on every exit
+			{
+				okAll, any := true, false
+				inspectNoLit(f.Body, func(n ast.Node) bool {
+					rs, ok := n.(*ast.ReturnStmt)
+					if !ok || rs.Pos() < lk.Pos() {
+						return true
+					}
+					any = true
+					good := false
+					for _, e := range rs.Results {
+						if lit, ok := unparen(e).(*ast.FuncLit); ok {
+							lf := p.byLit[lit]
+							lg := p.Graph(lf)
+							if len(lg.MustPassBeforeExit(lg.Entry(), true, func(m ast.Node) bool {
+								return nodeHasCall(p, m, func(c2 *ast.CallExpr) bool {
+									ux, k := mutexCall(in, c2)
+									return k == want && sameRef(in, ux, lx)
+								})
+							})) == 0 {
+								good = true
+							}
+						}
+					}
+					if !good {
+						okAll = false
+					}
+					return true
+				})
+				if any && okAll {
+					c.Ok(f, lk, kind+" of "+exprString(lx), what, "handed to the function literal returned here, which releases it on every exit", true)
+					continue
+				}
+			}
+			c.Bad(f, lk, kind+" of "+exprString(lx), what, "path from the "+kind+" to an exit without "+want+": "+witnessLines(g, bad[:1]))
+		}
+	}
+}
+
+// releasedByCallee: node n calls a same-package function (depth<=2) that releases the same lock field on all its exits.
+func releasedByCallee(p *Prog, f *FuncInfo, n ast.Node, lx ast.Expr, want string, depth int) bool {
+	if depth >= 2 {
+		return false
+	}
+	if _, isGo := n.(*ast.GoStmt); isGo {
+		return false
+	}
+	in := info(f)
+	fld := fieldOf(in, lx)
+	if fld == nil {
+		return false
+	}
+	res := false
+	for _, call := range callsIn(n) {
+		cf := p.byObj[callee(in, call)]
+		if cf == nil || cf.Body == nil || cf.Pkg != f.Pkg {
+			continue
+		}
+		cin := info(cf)
+		has := false
+		inspectNoLit(cf.Body, func(z ast.Node) bool {
+			if c2, ok := z.(*ast.CallExpr); ok {
+				if ux, k := mutexCall(cin, c2); k == want && fieldOf(cin, ux) == fld {
+					has = true
+				}
+			}
+			return true
+		})
+		if !has {
+			continue
+		}
+		// and it does not take the lock itself first
+		takes := false
+		inspectNoLit(cf.Body, func(z ast.Node) bool {
+			if c2, ok := z.(*ast.CallExpr); ok {
+				if ux, k := mutexCall(cin, c2); (k == "Lock" || k == "RLock") && fieldOf(cin, ux) == fld {
+					takes = true
+				}
+			}
+			return true
+		})
+		if takes {
+			continue
+		}
+		g := p.Graph(cf)
+		bad := g.MustPassBeforeExit(g.Entry(), true, func(m ast.Node) bool {
+			return nodeHasCall(p, m, func(c2 *ast.CallExpr) bool {
+				ux, k := mutexCall(cin, c2)
+				return k == want && fieldOf(cin, ux) == fld
+			})
+		})
+		if len(bad) == 0 {
+			res = true
+		}
+	}
+	return res
+}
+
+// ---- R59 ----
+
+func ruleR59(c *Ctx) {
+	p := c.P
+	what := "the decision whether the join may synchronise is taken against the current cohort: after every refresh of the awaited set the decision is re-evaluated before the gateway goes back to waiting; a refresh that is not followed by the decision is used one notification too late (lost wake-up)"
+	// decision functions: functions that contain the send of a probing action (see R54), plus their callers' calls
+	decision := map[*types.Func]bool{}
+	for _, f := range p.Funcs {
+		if f.Obj == nil || f.Pkg.PkgPath != pathBpmn {
+			continue
+		}
+		in := info(f)
+		inspectNoLit(f.Body, func(nd ast.Node) bool {
+			ss, ok := nd.(*ast.SendStmt)
+			if !ok {
+				return true
+			}
+			cl, ok := unparen(ss.Value).(*ast.CompositeLit)
+			if !ok {
+				return true
+			}
+			if nt := namedOf(in.TypeOf(cl)); nt == nil || !hasMethod(nt, "action") {
+				return true
+			}
+			for _, el := range cl.Elts {
+				if kv, ok := el.(*ast.KeyValueExpr); ok {
+					if _, ok := kv.Value.(*ast.FuncLit); ok {
+						decision[f.Obj] = true
+					}
+				}
+			}
+			return true
+		})
+	}
+	n := 0
+	handlers := append(msgHandlers(p, isIMessage), selectClauses(p)...)
+	for _, f := range p.Funcs {
+		if f.Pkg.PkgPath != pathBpmn || f.Body == nil {
+			continue
+		}
+		in := info(f)
+		inspectNoLit(f.Body, func(nd ast.Node) bool {
+			as, ok := nd.(*ast.AssignStmt)
+			if !ok || len(as.Lhs) != 1 || len(as.Rhs) != 1 {
+				return true
+			}
+			call, ok := unparen(as.Rhs[0]).(*ast.CallExpr)
+			if !ok {
+				return true
+			}
+			fn := callee(in, call)
+			if fn == nil || fn.Name() != "activeFlowsInCohort" || fieldOf(in, as.Lhs[0]) == nil {
+				return true
+			}
+			n++
+			g := p.Graph(f)
+			pt, ok := g.PointOf(as)
+			if !ok {
+				c.Bad(f, as, "refresh of the awaited cohort", what, "not a node of the control-flow graph (undecided)")
+				return true
+			}
+			// region: innermost handler / select clause body containing the assignment
+			body := f.Body.List
+			for _, h := range handlers {
+				if h.Func == f && len(h.Body) > 0 && regionOfStmts(h.Body).Contains(as) && regionOfStmts(h.Body).End-regionOfStmts(h.Body).Pos < regionOfStmts(body).End-regionOfStmts(body).Pos {
+					body = h.Body
+				}
+			}
+			region := regionOfStmts(body)
+			isDecision := func(z ast.Node) bool {
+				return z != ast.Node(as) && nodeHasCall(p, z, func(c2 *ast.CallExpr) bool {
+					f2 := callee(in, c2)
+					return f2 != nil && decision[f2]
+				}) || (decision[funcObjOf(f)] && false)
+			}
+			bad := g.RegionPaths(pt, region, isDecision)
+			c.Check(len(bad) == 0, f, as, "refresh of the awaited cohort", what,
+				ifElse(len(bad) == 0, "every path from the refresh to the end of the handling clause re-evaluates the decision", "path from the refresh to the end of the clause without re-evaluating the decision: "+witnessLines(g, bad[:min(1, len(bad))])))
+			return true
+		})
+	}
+	if n == 0 {
+		c.Missing("refresh of the awaited cohort", "no assignment from the tracker's cohort query was found")
+	}
+}
+
+func funcObjOf(f *FuncInfo) *types.Func { return f.Obj }
+
+// selectClauses returns the comm clauses of every select as handler regions.
+func selectClauses(p *Prog) []tsClause {
+	var out []tsClause
+	for _, f := range p.Funcs {
+		inspectNoLit(f.Body, func(n ast.Node) bool {
+			if cc, ok := n.(*ast.CommClause); ok && len(cc.Body) > 0 {
+				out = append(out, tsClause{Func: f, At: cc, Body: cc.Body})
+			}
+			return true
+		})
+	}
+	return out
+}
+
+// ---- R60: context agreement ----
+
+func init() {
+	register(&Rule{ID: "R60", Title: "context agreement: a function that is given a context passes that context (or one derived from it) on to the engine calls it makes, not a context stored in a field or a fresh background context", Min: 45, Run: ruleR60})
+}
+
+func isContextType(t types.Type) bool {
+	return t != nil && isNamed(t, "context", "Context")
+}
+
+func ruleR60(c *Ctx) {
+	p := c.P
+	what := "everything a call does on behalf of its caller runs under the caller's context, so cancelling that context stops all of it and completion is judged for the same scope; passing on a stored or background context instead detaches that part (it is not cancelled with the rest, or is cancelled while the rest goes on)"
+	for _, f := range p.Funcs {
+		if !isTargetPkg(p, f.Pkg.PkgPath) || f.Body == nil {
+			continue
+		}
+		in := info(f)
+		// context parameters in scope: own, or of enclosing functions
+		var ctxParams []*types.Var
+		for cur := f; cur != nil; cur = cur.Parent {
+			var ft *ast.FuncType
+			if cur.Decl != nil {
+				ft = cur.Decl.Type
+			} else if cur.Lit != nil {
+				ft = cur.Lit.Type
+			}
+			if ft == nil || ft.Params == nil {
+				continue
+			}
+			for _, fl := range ft.Params.List {
+				for _, nm := range fl.Names {
+					if v, ok := in.Defs[nm].(*types.Var); ok && isContextType(v.Type()) {
+						ctxParams = append(ctxParams, v)
+					}
+				}
+			}
+		}
+		if len(ctxParams) == 0 {
+			continue
+		}
+		// locals derived from a context parameter
+		derived := map[types.Object]bool{}
+		for _, v := range ctxParams {
+			derived[v] = true
+		}
+		root := f.Root()
+		for iter := 0; iter < 4; iter++ {
+			ast.Inspect(root.Body, func(n ast.Node) bool {
+				as, ok := n.(*ast.AssignStmt)
+				if !ok {
+					return true
+				}
+				for i, l := range as.Lhs {
+					id, ok := l.(*ast.Ident)
+					if !ok || !isContextType(in.TypeOf(l)) {
+						continue
+					}
+					var rhs ast.Expr
+					if len(as.Rhs) == len(as.Lhs) {
+						rhs = as.Rhs[i]
+					} else if len(as.Rhs) == 1 {
+						rhs = as.Rhs[0]
+					}
+					if rhs == nil {
+						continue
+					}
+					if exprMentionsAny(rhs, func(z ast.Node) bool {
+						zid, ok := z.(*ast.Ident)
+						return ok && derived[objOf(in, zid)]
+					}) {
+						if o := objOf(in, id); o != nil {
+							derived[o] = true
+						}
+					}
+				}
+				return true
+			})
+		}
+		inspectNoLit(f.Body, func(n ast.Node) bool {
+			call, ok := n.(*ast.CallExpr)
+			if !ok {
+				return true
+			}
+			fn := callee(in, call)
+			for _, a := range call.Args {
+				if !isContextType(in.TypeOf(a)) {
+					continue
+				}
+				// deriving a context (context.WithCancel(x)) is judged where the result is used
+				if fn != nil && fn.Pkg() != nil && fn.Pkg().Path() == "context" {
+					continue
+				}
+				name := "call"
+				if fn != nil {
+					name = fn.Name()
+				}
+				okArg := exprMentionsAny(a, func(z ast.Node) bool {
+					zid, ok := z.(*ast.Ident)
+					return ok && derived[objOf(in, zid)]
+				})
+				c.Check(okArg, f, a, "context passed to "+name, what,
+					ifElse(okArg, "derived from the function's context parameter", "the argument `"+exprString(a)+"` is not derived from the context parameter "+ctxParams[0].Name()+" of "+f.Root().QName()))
+			}
+			return true
+		})
+	}
+}
+
+func exprMentionsAny(e ast.Node, pred func(ast.Node) bool) bool {
+	found := false
+	ast.Inspect(e, func(m ast.Node) bool {
+		if m != nil && pred(m) {
+			found = true
+		}
+		return !found
+	})
+	return found
+}
+
+// ---- R61: per-iteration state ----
+
+func init() {
+	register(&Rule{ID: "R61", Title: "per-iteration state: a variable that a loop iteration sets only on some paths and then uses is declared per iteration, so the value of an earlier element cannot leak into a later one", Min: 1, Run: ruleR61})
+}
+
+func ruleR61(c *Ctx) {
+	p := c.P
+	what := "inside a loop over elements (boundary events, flows, definitions), a variable that is assigned on only some paths of an iteration and read later in the iteration must not live across iterations; otherwise the element handled now silently inherits what an earlier element set (e.g. a non-interrupting boundary event inheriting the cancel-the-activity transformer of an interrupting one)"
+	count := 0
+	for _, f := range p.Funcs {
+		if !isTargetPkg(p, f.Pkg.PkgPath) || f.Body == nil {
+			continue
+		}
+		in := info(f)
+		inspectNoLit(f.Body, func(n ast.Node) bool {
+			var body *ast.BlockStmt
+			switch x := n.(type) {
+			case *ast.RangeStmt:
+				body = x.Body
+			case *ast.ForStmt:
+				// only loops that step over elements; `for { select ... }` state machines carry state by design
+				if x.Post != nil && x.Cond != nil {
+					body = x.Body
+				}
+			}
+			if body == nil || len(body.List) == 0 {
+				return true
+			}
+			loop := n
+			readAfterLoop := func(v *types.Var) bool {
+				res := false
+				ast.Inspect(f.Body, func(z ast.Node) bool {
+					if id, ok := z.(*ast.Ident); ok && id.Pos() > loop.End() && in.Uses[id] == types.Object(v) {
+						res = true
+					}
+					return true
+				})
+				return res
+			}
+			// candidate variables: declared in f outside the loop, plainly assigned inside the loop body
+			cands := map[*types.Var]bool{}
+			inspectNoLit(body, func(z ast.Node) bool {
+				as, ok := z.(*ast.AssignStmt)
+				if !ok || as.Tok != token.ASSIGN {
+					return true
+				}
+				for _, l := range as.Lhs {
+					id, ok := l.(*ast.Ident)
+					if !ok {
+						continue
+					}
+					v, ok := in.Uses[id].(*types.Var)
+					if !ok || v.IsField() || v.Pkg() == nil {
+						continue
+					}
+					if v.Pos() >= loop.Pos() && v.Pos() <= loop.End() {
+						continue
+					}
+					if v.Pos() < f.Body.Pos() || v.Pos() > f.Body.End() {
+						continue // parameters and named results (err) are function-scoped by nature
+					}
+					switch v.Type().Underlying().(type) {
+					case *types.Signature, *types.Pointer, *types.Interface, *types.Map, *types.Chan:
+						if !isErrorType(v.Type()) {
+							cands[v] = true
+						}
+					}
+				}
+				return true
+			})
+			if len(cands) == 0 {
+				return true
+			}
+			g := p.Graph(f)
+			entry, ok := g.EntryOfStmts(body.List)
+			if !ok {
+				return true
+			}
+			region := regionOf(body)
+			for v := range cands {
+				if readAfterLoop(v) {
+					continue // a search result / accumulator that outlives the loop
+				}
+				assigns := func(nd ast.Node) bool {
+					res := false
+					inspectNoLit(nd, func(z ast.Node) bool {
+						if as, ok := z.(*ast.AssignStmt); ok {
+							for _, l := range as.Lhs {
+								if id, ok := l.(*ast.Ident); ok && objOf(in, id) == types.Object(v) {
+									res = true
+								}
+							}
+						}
+						return true
+					})
+					return res
+				}
+				reads := func(nd ast.Node) bool {
+					res := false
+					ast.Inspect(nd, func(z ast.Node) bool {
+						if as, ok := z.(*ast.AssignStmt); ok {
+							// the left-hand side occurrence is not a read
+							for _, r := range as.Rhs {
+								ast.Inspect(r, func(y ast.Node) bool {
+									if id, ok := y.(*ast.Ident); ok && in.Uses[id] == types.Object(v) {
+										res = true
+									}
+									return true
+								})
+							}
+							for _, l := range as.Lhs {
+								if _, ok := l.(*ast.Ident); !ok {
+									ast.Inspect(l, func(y ast.Node) bool {
+										if id, ok := y.(*ast.Ident); ok && in.Uses[id] == types.Object(v) {
+											res = true
+										}
+										return true
+									})
+								}
+							}
+							return false
+						}
+						if id, ok := z.(*ast.Ident); ok && in.Uses[id] == types.Object(v) {
+							res = true
+						}
+						return true
+					})
+					return res
+				}
+				count++
+				found, w := g.SearchB(entry, true, func(pt Point, nd ast.Node) Action {
+					if nd == nil {
+						return Prune
+					}
+					// nil checks of the variable itself are not uses of a stale value... they are: keep strict
+					if reads(nd) && !assigns(nd) {
+						return Found
+					}
+					if assigns(nd) {
+						return Prune
+					}
+					return Continue
+				}, g.WithinRegion(region))
+				c.Check(!found, f, loop, "loop-carried variable "+v.Name(), what,
+					ifElse(found, fmt.Sprintf("%s is declared outside the loop; a path of the loop body reads it before this iteration assigned it: lines %v", v.Name(), g.Lines(w)), "every read of "+v.Name()+" in the loop body follows an assignment of the same iteration"))
+			}
+			return true
+		})
+	}
+	_ = count
+}
+
+func isErrorType(t types.Type) bool {
+	n := namedOf(t)
+	return n != nil && n.Obj().Pkg() == nil && n.Obj().Name() == "error"
+}
+
+// ---- R62: event posts are not lossy ----
+
+func init() {
+	register(&Rule{ID: "R62", Title: "event posts are not lossy: a consumer hands a delivered event to its node's mailbox with a send that cannot be skipped (no select with a default clause around it)", Min: 2, Run: ruleR62})
+}
+
+func ruleR62(c *Ctx) {
+	p := c.P
+	what := "an event delivered to a listening node must reach that node's goroutine; a post placed in a select with a default clause silently drops the event whenever the mailbox happens to be full, so a listener that should continue never does"
+	for _, f := range p.Funcs {
+		if f.Obj == nil || f.Obj.Name() != "ConsumeEvent" || !isTargetPkg(p, f.Pkg.PkgPath) || f.Body == nil {
+			continue
+		}
+		in := info(f)
+		ast.Inspect(f.Body, func(n ast.Node) bool {
+			ss, ok := n.(*ast.SendStmt)
+			if !ok || !isMailboxChan(in.TypeOf(ss.Chan)) {
+				return true
+			}
+			lossy := false
+			if cc, ok := p.Parent(ss).(*ast.CommClause); ok {
+				if sel, ok := p.Parent(p.Parent(cc)).(*ast.SelectStmt); ok {
+					for _, cl := range sel.Body.List {
+						if c2, ok := cl.(*ast.CommClause); ok && c2.Comm == nil {
+							lossy = true
+						}
+					}
+				}
+			}
+			c.Check(!lossy, f, ss, "post of the delivered event to "+exprString(ss.Chan), what, ifElse(lossy, "the send is a case of a select with a default clause", "the send cannot be skipped"))
+			return true
+		})
+	}
+}
